@@ -1335,6 +1335,10 @@ def c14(tr, cx):
                     tr.v('C14', 'renege_due_before_horizon_still_pending', (nid, i['id'], str(i['ren']), T)); break
         if fin['clock'] != fin['min_next']: tr.v('C14', 'clock_not_at_next_event', (str(fin['clock']), str(fin['min_next'])))
     elif run['method'] == 'customers':
+        ag = getattr(tr, 'again', None)
+        if ag is not None:
+            tr.count('C14.repeated_calls')
+            if ag[0] != ag[1]: tr.v('C14', 'repeated_call_executed_events', ag)
         key = {'Complete': 'exit_completed', 'Finish': 'n_exit', 'Arrive': 'n_arr', 'Accept': 'n_accepted'}[run['cmethod']]
         n = run['n']
         # harness-side recount (not the engine counters): completed = exit events with completed flag, etc.
